@@ -163,6 +163,21 @@ def direct_call_of(fn, op, limit=8):
                 a = x[3][0]
                 cur = a[1] if a[0] in ("c", "m") else None
                 continue
+            if to.endswith("Clone>::clone") and x[3] and x[3][0][0] in ("c", "m"):
+                # a clone carries the same value: follow the reference it was given
+                r = x[3][0][1]
+                tgt = None
+                for _ in range(3):
+                    rb = r[:-2] if r.endswith("|*") else r
+                    nx = [d for d in defs.get(rb, []) if d[0] == "st" and d[1][0] == "ref"]
+                    if len(nx) != 1:
+                        break
+                    tgt = nx[0][1][2]
+                    r = tgt
+                    if "|" not in tgt and not any(d[0] == "st" and d[1][0] == "ref" for d in defs.get(tgt, [])):
+                        break
+                cur = tgt
+                continue
             return bi, to
         if x[0] == "use" and x[1][0] in ("c", "m"):
             cur = x[1][1]
